@@ -673,8 +673,20 @@ class SmallSet {
   }
 
   void grow() {
-    _set.insert(std::make_move_iterator(_vec.begin()), std::make_move_iterator(_vec.end()));
-    _vec.clear();
+    // Transfer the elements one by one so that each of them is held by exactly one container at any time
+    try {
+      while (!_vec.empty()) {
+        _set.insert(std::move(_vec.back()));
+        _vec.pop_back();
+      }
+    } catch (...) {
+      // The set could not take all elements (allocation failure): come back to the small state
+      while (!_set.empty()) {
+        auto nh = _set.extract(_set.begin());
+        _vec.push_back(std::move(nh.value()));
+      }
+      throw;
+    }
   }
 
   bool isSmall() const noexcept { return _set.empty(); }
